@@ -151,6 +151,8 @@ var (
 		NSliceI(nil), NSliceAny(nil), NSliceStr(nil), NSliceN(nil), NMapSI(nil), NMapAA(nil), NArr2{}, NArr0{}, NArr3S{},
 		Inner{}, SEmpty{}, Marsh{}, BinMarsh{}, S1{}, S2{}, S3{}, S4{},
 	}
+	// types the framework registers itself (net/edf/init.go): the first of them owns the lowest cache id
+	framework = []any{gen.Env(""), gen.LogLevel(0), gen.ProcessState(0), gen.Version{}, gen.MessageEvent{}, gen.ProcessFallback{}, gen.ProcessShortInfo{}}
 	// the names in the partial type cache (every other one)
 	CachedAtoms = map[string]gen.Atom{"c1": "verif_cached_atom_one@host", "c2": "c2"}
 	Sentinels   = map[string]error{"A": SentA, "B": SentB, "gen": gen.ErrTimeout, "kill": gen.TerminateReasonKill}
@@ -193,6 +195,12 @@ func Register() error {
 		if err := edf.RegisterTypeOf(v); err != nil {
 			return fmt.Errorf("register %v: %w", t, err)
 		}
+		regByName[t.Name()] = t
+		regNames[t] = t.Name()
+		regOrder = append(regOrder, t.Name())
+	}
+	for _, v := range framework {
+		t := reflect.TypeOf(v)
 		regByName[t.Name()] = t
 		regNames[t] = t.Name()
 		regOrder = append(regOrder, t.Name())
